@@ -68,7 +68,7 @@ else:
         kind = KINDS[k % len(KINDS)]
         n = rng.choice([0, 1, 2, 3, 15, 16, 17, 31, 32, 33]) if rng.chance(1, 5) else rng.range(4, 220 if ck.thorough() else 140)
         strs = gen_strings(rng, kind, n)
-        params = rng.choice(["T", "T", "U", "V", "E"]); workers = rng.range(1, 4); lcp = rng.below(2); st = rng.choice(["c", "c", "s"])
+        params = rng.choice(["T", "T", "T", "U", "U", "V", "V", "E", "E", "M", "S", "P", "R", "W", "K"]); workers = rng.range(1, 4); lcp = rng.below(2); st = rng.choice(["c", "c", "s"])
         nsched = 6 if ck.thorough() else 3
         cases.append("g%d_%s %s %d %d %s %d %d %s" % (k, kind, params, workers, lcp, st, nsched, rng.below(1 << 30), ",".join(hx(s) for s in strs) if strs else "-"))
         dist[kind] = dist.get(kind, 0) + 1
@@ -91,7 +91,10 @@ nruns = 0
 ntraces_ok = 0
 nontrivial = set()
 import concurrent.futures
-with concurrent.futures.ThreadPoolExecutor(max_workers=2) as ex:
+with concurrent.futures.ThreadPoolExecutor(max_workers=3) as ex:
+    # the 20 public overloads of strings_parallel.hpp, real threads, default parameters
+    f3 = ex.submit(ck.build_cpp, "c04_frontend", ["harness/C04/frontend_harness.cpp"],
+                   ["-std=c++17", "-O1", "-g", "-fsanitize=address,undefined", "-fno-sanitize-recover=all"], REPO_SRCS, [], 1500)
     f1 = ex.submit(ck.build_cpp, "c04_shim", ["harness/C04/ps5_harness.cpp"], None, REPO_SRCS,
                    ["-DUSE_SHIM", "-include", os.path.join(verif.VERIF, "harness", "sched", "verif_sched.hpp")], 1500)
     # free-running real threads under ThreadSanitizer (data races are outside the Coq model: run-time evidence)
@@ -99,6 +102,7 @@ with concurrent.futures.ThreadPoolExecutor(max_workers=2) as ex:
                    ["-std=c++17", "-O1", "-g", "-fsanitize=thread", "-DTLX_HAVE_THREAD_SANITIZER=1"], REPO_SRCS, [], 1500)
     exe, log = f1.result()
     exe_tsan, log_tsan = f2.result()
+    exe_fe, log_fe = f3.result()
 drv, dlog = ck.ocaml_driver("C04")
 
 def translate(pt):
@@ -209,7 +213,7 @@ if ck.violations == 0 and exe is not None:
             kind = KINDS[k % len(KINDS)]
             n = rng.choice([150, 400, 900, 2500])
             strs = gen_strings(rng, kind, n)
-            tcases.append("ts%d_%s %s 0 %d %s %d 1 %s" % (k, kind, rng.choice(["T", "U", "V", "E"]), k % 2, rng.choice(["c", "s"]), 3 if ck.thorough() else 2, ",".join(hx(x) for x in strs) if strs else "-"))
+            tcases.append("ts%d_%s %s 0 %d %s %d 1 %s" % (k, kind, rng.choice(["T", "U", "V", "E", "M", "S", "R", "W", "K"]), k % 2, rng.choice(["c", "s"]), 3 if ck.thorough() else 2, ",".join(hx(x) for x in strs) if strs else "-"))
         tf = os.path.join(ck.scratch, "tsan_cases.txt"); open(tf, "w").write("\n".join(tcases) + "\n")
         rct, outt = verif.sh([exe_tsan, tf], timeout=2400, env=dict(os.environ, TSAN_OPTIONS="halt_on_error=0 report_signal_unsafe=0 history_size=4"))
         tsan_runs = sum(1 for l in outt.splitlines() if l.startswith("R "))
@@ -232,6 +236,47 @@ if ck.violations == 0 and exe is not None:
         elif rct != 0 and ck.violations == 0:
             found = True
             ck.violation("TSan harness crashed (rc=%d)" % rct, {"log_tail": outt[-3000:]})
+
+# ---- the public front-ends (every overload x plain/lcp x with/without the memory argument), real threads
+fe_runs = 0
+if ck.violations == 0:
+    if exe_fe is None:
+        ck.violation("front-end harness does not compile", {"correspondence": "harness/C04/frontend_harness.cpp", "log": log_fe[-2000:]}, no_input=True)
+    else:
+        fcases = []
+        NF = 12 if ck.thorough() else 4
+        for ov in range(10):
+            for lcpf in (0, 1):
+                for r in range(NF):
+                    kind = KINDS[(ov + 3 * lcpf + r) % len(KINDS)]
+                    n = [0, 1, 2, 7, 60, 400, 3000, 9000][(ov + lcpf + 5 * r) % 8]
+                    strs = gen_strings(rng, kind, n) if n else []
+                    fcases.append("fe%d_%d_%d_%s %d %d %d %s" % (ov, lcpf, r, kind, ov, lcpf, rng.choice([0, 0, 1000000]), ",".join(hx(x) for x in strs) if strs else "-"))
+        # one input above the default smallsort_threshold (2^20 strings), so that the default parameters take the parallel path
+        bign = 1100000 if ck.thorough() else 120000   # quick: below the threshold (one sequential job), still through the whole front-end plumbing
+        base = gen_strings(rng, "small_alpha", 3000)
+        big = (base * (bign // len(base) + 1))[:bign]
+        fcases.append("febig_lcp 0 1 0 %s" % ",".join(hx(x) for x in big))
+        if ck.thorough():
+            fcases.append("febig_std 9 0 0 %s" % ",".join(hx(x) for x in big))
+            fcases.append("febig_constchar 3 1 0 %s" % ",".join(hx(x) for x in big))
+        ff = os.path.join(ck.scratch, "frontend_cases.txt"); open(ff, "w").write("\n".join(fcases) + "\n")
+        rcf, outf = verif.sh([exe_fe, ff], timeout=1500)
+        for l in outf.splitlines():
+            if l.startswith("F "):
+                fe_runs += 1
+                h3 = l.split(None, 2)
+                if len(h3) == 3 and h3[2] != "OK":
+                    found = True
+                    ck.violation("public front-end violates the property: %s %s" % (h3[1], h3[2]),
+                                 {"case": next((c[:4000] for c in fcases if c.startswith(h3[1] + " ")), None), "verdict": h3[2],
+                                  "format": "<id> <overload 0..9> <lcp> <memory> <hex strings>", "replay_cmd": "build harness/C04/frontend_harness.cpp (ASan+UBSan) and run it on the case line"})
+                    if ck.violations >= 3: break
+        if rcf != 0 and ck.violations == 0:
+            found = True
+            done = sum(1 for l in outf.splitlines() if l.startswith("F "))
+            ck.violation("front-end harness crashed / sanitizer report (rc=%d) in case #%d" % (rcf, done),
+                         {"case": fcases[done][:4000] if done < len(fcases) else None, "log_tail": outf[-3000:]})
 
 # ---- thorough: free-running real threads, default parameters, large inputs
 big_runs = 0
@@ -264,11 +309,12 @@ if pr is not None and not pr["ok"]:
     ck.proof_broken(found)
 
 ck.finish({
-    "evaluations": nruns + big_runs + tsan_runs,
+    "evaluations": nruns + big_runs + tsan_runs + fe_runs,
+    "frontend_calls": fe_runs,
     "tsan_runs": tsan_runs,
     "distinct_nontrivial": len(nontrivial),
     "traces_validated_against_impl": ntraces_ok,
-    "rule": "cases = string multisets of 8 kinds (all-equal short/long, two-valued, bucket-degenerate, small alphabet, prefix chains, high bytes, random) x parameter sets {tiny TreeBits 2, tiny unroll TreeBits 3, default} x workers 1..4 x with/without LCP x {unsigned char**, std::string*}; each run under the deterministic scheduler with a different schedule; non-trivial = distinct protocol traces longer than 12 events (several steps). Every run: result checked (sorted / permutation of objects / exact LCP), protocol trace accepted by the extracted Coq lstep and ending all-dead.",
+    "rule": "cases = string multisets of 8 kinds (all-equal short/long, two-valued, bucket-degenerate, small alphabet, prefix chains, high bytes, random) x parameter sets {T tiny TreeBits 2, U tiny unroll TreeBits 3, V small, E equality classifier, M/S/P/R/W one boolean switch of PS5ParametersDefault flipped each, K 32-bit key type, D default} x workers 1..4 x with/without LCP x {unsigned char**, std::string*}; each run under the deterministic scheduler with a different schedule; non-trivial = distinct protocol traces longer than 12 events (several steps). Every run: result checked (sorted / permutation of objects / exact LCP), protocol trace accepted by the extracted Coq lstep and ending all-dead.",
     "samples": samples,
     "input_distribution": dist,
 }, assumptions=[
